@@ -36,6 +36,10 @@ def clean(stmts):
             continue
         if (isinstance(s, ast.Expr) and isinstance(s.value, ast.Call) and isinstance(s.value.func, ast.Attribute)
                 and isinstance(s.value.func.value, ast.Name) and s.value.func.value.id in ('logger', 'logging')):
+            from translate.common import logger_args_inert
+            why = logger_args_inert(s.value)
+            if why:
+                raise TranslationError(REL, s, 'a logging statement is only skipped when building its message can neither raise nor change anything: %s' % why)
             continue
         out.append(s)
     return out
